@@ -7,7 +7,7 @@ import stream_common as sc  # noqa: E402
 PROP = "C02"
 DRIVER_PROP = "C01"
 RULE = ("real ssnet.runonce on both tunnel ends over fake sockets, every micro-step replayed on the extracted model and the full "
-        "state of both ends compared after every iteration; cases: every order of close events (application first, destination first, both, none, before the remote connect completes, with data buffered at every hop), an established flow's recv/send/shutdown failing with every errno the kernel can answer (stream_common.EST, raised as the Python class the real call raises) next to a healthy flow — either endpoint failing must tear down that flow only, an event loop that dies is reported with the case; an endpoint failing next to an endpoint that does nothing by itself (destination refuses in a later round than the one that created the flow with a silent application; destination half-closes then dies with an application that never closes: stream_common.endpoint_failure_shapes) — at quiescence both ends have finished the flow and every sleeping handler has the pre_select coupling of c02_no_lost_wakeup (stream_common.teardown_oracles); a case is non-trivial when at least one flow was "
+        "state of both ends compared after every iteration; cases: every order of close events (application first, destination first, both, none, before the remote connect completes, with data buffered at every hop), an established flow's recv/send/shutdown failing with every errno the kernel can answer (stream_common.EST, raised as the Python class the real call raises) next to a healthy flow — either endpoint failing must tear down that flow only, an event loop that dies is reported with the case; an endpoint failing next to an endpoint that does nothing by itself (destination refuses in a later round than the one that created the flow with a silent application; destination half-closes then dies with an application that never closes: stream_common.endpoint_failure_shapes) — at quiescence both ends have finished the flow and every sleeping handler has the pre_select coupling of c02_no_lost_wakeup (stream_common.teardown_oracles); on every run, observed at Mux.send of both ends: while an end handles a received TCP_EOF or TCP_STOP_SENDING it queues no message at all — neither is ever echoed, an end says TCP_EOF / STOP_SENDING only for a reason of its own (c02_no_echo); a case is non-trivial when at least one flow was "
         "accepted; distinct by case seed")
 TRUSTED_BASE = sc.STREAM_TB
 ASSUMPTIONS = sc.STREAM_ASSUMPTIONS
